@@ -242,7 +242,7 @@ def gen_opa_value(op, t, sform, shape, srcform, tier):
     return h
 
 
-def gen_opa_index(op, t, sform, shape, mode, tier, agree=False):
+def gen_opa_index(op, t, sform, shape, mode, tier, agree=False, K=2):
     """L1: the op-assign range structs, built as the set-range arms build them.
     mode: RS  x[[i..]] op= s      (index vector, scalar source)          <Op>Assign1DRS
           RB  x[mask]   op= s      (logical mask, scalar source)          <Op>Assign1DRB
@@ -260,7 +260,7 @@ def gen_opa_index(op, t, sform, shape, mode, tier, agree=False):
     dim = R if two_d else N
     mask = mode in ("RB", "RVB", "ASB")
     vec_src = mode in ("RV", "RVB")
-    K = 2                      # index vector length
+    # K = index vector length (3: a vector with an interior, see gen_set_l1)
     if mask:
         b.append("let ix: [bool; %d] = kani::any();" % dim)
         if agree:
@@ -269,7 +269,7 @@ def gen_opa_index(op, t, sform, shape, mode, tier, agree=False):
         b.append("let ixc = Ref::new(DVector::<bool>::from_vec(ix.to_vec()));")
     else:
         b.append("let ix: [usize; %d] = kani::any();" % K)
-        b.append("kani::assume(%s);" % " && ".join(["ix[%d] >= 1 && ix[%d] <= %d" % (k, k, dim) for k in range(K)] + ["ix[0] != ix[1]"]))
+        b.append("kani::assume(%s);" % " && ".join(["ix[%d] >= 1 && ix[%d] <= %d" % (k, k, dim) for k in range(K)] + ["ix[%d] != ix[%d]" % (a_, b_) for a_ in range(K) for b_ in range(a_ + 1, K)]))
         b.append("let ixc = Ref::new(DVector::<usize>::from_vec(ix.to_vec()));")
     if vec_src:
         nsrc = dim if mask else K
@@ -327,7 +327,7 @@ def gen_opa_index(op, t, sform, shape, mode, tier, agree=False):
     elif mask:
         b.append("kani::cover!(%s, \"VP:reached-partial-mask\");" % " && ".join(("ix[%d]" if i % 2 == 0 else "!ix[%d]") % i for i in range(dim)))
     b.append("forget(f); forget(sc); forget(rc); forget(ixc);")
-    name = "c04_opa_%s_%s_%s%dx%d_%s%s" % (op.lower(), t.lower(), sform.lower(), R, C, mode.lower(), "_agree" if agree else "")
+    name = "c04_opa_%s_%s_%s%dx%d_%s%s%s" % (op.lower(), t.lower(), sform.lower(), R, C, mode.lower(), "_agree" if agree else "", "" if K == 2 else "_k%d" % K)
     h = H(name, "    " + "\n    ".join(b), opa_where(op), domain="accept", key="L1/%sAssign%s/%s/%s%s" % (op, struct, t, sform, "/agree" if agree else ""),
           desc="%sAssign%s<%s> on a %dx%d %s from an arbitrary pre-state (%s): addressed elements become old %s source, every other element and the "
                "shape unchanged" % (op, struct, t, R, C, sform, {"RS": "two distinct linear indices, scalar source", "RB": "symbolic mask, scalar source",
@@ -355,7 +355,7 @@ SET_L1 = {
 }
 
 
-def gen_set_l1(t, sform, shape, mode, tier, agree=False):
+def gen_set_l1(t, sform, shape, mode, tier, agree=False, K=2):
     """agree=True: the inputs are restricted to those on which the recorded known finding of this kernel cannot show (1DRVB: the true
     bits form a prefix, so `i-th addressed` and `position i` coincide; 2DRRUB: the row index vector is [1, 2]), so that every OTHER
     defect of the kernel is still a violation.
@@ -366,7 +366,8 @@ def gen_set_l1(t, sform, shape, mode, tier, agree=False):
     struct, rsel, csel = SET_L1[mode]
     mat = {"RD": "RowDVector", "VD": "DVector", "MD": "DMatrix"}[sform]
     vec_src = mode in ("1DRV", "1DRVB")
-    K = 2
+    # K = index vector length.  K = 3 exists because two entries have no interior: a kernel that infers "consecutive run" from the end
+    # points of the vector (seeded change C04-3) is only wrong for three or more entries
     b = [sym_array(t, "old", N), "let sc = Ref::new(%s);" % mk_form(sform, t, "old", shape)]
     pre = []
 
@@ -398,7 +399,7 @@ def gen_set_l1(t, sform, shape, mode, tier, agree=False):
         b += d0 + d1
     if vec_src:
         if rsel == "lin-ix":
-            pre.append("i0[0] != i0[1]")
+            pre.extend("i0[%d] != i0[%d]" % (a_, b_) for a_ in range(K) for b_ in range(a_ + 1, K))
             nsrc = K
         else:
             nsrc = N       # as long as the mask: a source with one element per true bit is a prefix of it
@@ -446,7 +447,7 @@ def gen_set_l1(t, sform, shape, mode, tier, agree=False):
     b.append("{ let cur = sc.borrow(); assert!(%s, \"VP:second-solve-differs\"); }" % same)
     b.append("kani::cover!(true, \"VP:reached\");")
     b.append("forget(f); forget(sc); forget(rc);")
-    name = "c04_l1_%s_%s%dx%d_%s%s" % (t.lower(), sform.lower(), R, C, mode.lower(), "_agree" if agree else "")
+    name = "c04_l1_%s_%s%dx%d_%s%s%s" % (t.lower(), sform.lower(), R, C, mode.lower(), "_agree" if agree else "", "" if K == 2 else "_k%d" % K)
     h = H(name, "    " + "\n    ".join(b), WHERE, domain="accept", key="L1/%s/%s/%s%s" % (struct, t, sform, "/agree" if agree else ""),
           desc="%s<%s> on a %dx%d %s from an arbitrary pre-state (rows: %s, columns: %s, %s source): addressed elements hold the source%s, every other "
                "element and the shape unchanged, a second solve changes nothing" % (struct, t, R, C, sform, rsel, csel or "-", "vector" if vec_src else "scalar",
@@ -497,6 +498,12 @@ def plan(tier, seed):
         else:
             hs.append(gen_set_l1("f64", "MD", (2, 3), mode, "quick"))
             hs.append(gen_set_l1("u8", "MD", (3, 2), mode, "thorough"))
+    # index vectors of three entries (an interior), sinks of four elements / 3x3
+    hs.append(gen_set_l1("u8", "VD", (4, 1), "1DRS", "quick", K=3))
+    hs.append(gen_set_l1("u8", "RD", (1, 4), "1DRV", "quick", K=3))
+    hs.append(gen_set_l1("u8", "MD", (2, 2), "1DRS", "thorough", K=3))
+    for mode3 in [m_ for m_, (st_, r_, c_) in SET_L1.items() if c_ is not None and "ix" in (r_, c_)]:
+        hs.append(gen_set_l1("u8", "MD", (3, 3), mode3, "quick" if mode3 in ("2DRAS", "2DARS", "2DRRS") else "thorough", K=3))
     hs.append(gen_set_l1("f64", "VD", (3, 1), "1DRVB", "quick", agree=True))
     hs.append(gen_set_l1("f64", "MD", (2, 3), "2DRRUB", "quick", agree=True))
     # op-assignment
@@ -514,6 +521,8 @@ def plan(tier, seed):
                                             ("MD", (2, 2), "RS"), ("VD", (3, 1), "RB"), ("RD", (1, 3), "RV"), ("VD", (3, 1), "RVB"))):
             opa.append(gen_opa_index(op, tt, sf, sh, mode, "quick" if k < 6 else "thorough"))     # ~10 s each (f32 multiplication: ~2 min)
         opa.append(gen_opa_index(op, tt, "VD", (3, 1), "RVB", "quick", agree=True))
+        opa.append(gen_opa_index(op, tt, "VD", (4, 1), "RS", "quick" if op in ("Add", "Div") else "thorough", K=3))
+        opa.append(gen_opa_index(op, tt, "MD", (3, 3), "AS", "thorough", K=3))
     hs += opa
     src = read_repo("src/interpreter/src/stdlib/assign/matrix.rs")
     prelude, extracted = "", {}
